@@ -275,6 +275,28 @@ def run(ctx, rep):
     oki = len(lens) == 1 and len(pss) == 1 and pss[0][0] in EXT.reachable_from(lens[0][0], cut_edges=backs_) and lens[0][0] not in EXT.reachable_from(pss[0][0], cut_edges=backs_)
     rep.check("C17.b", "pack-index-before-push", oki, where=EXT.loc(), what="an entry's pack_idx is packs.len() taken before the pack is pushed (it is the pack's own position)" if oki else
               "pack_idx is not the position of the entry's pack (len() read after the push / not at all): lookups return another pack")
+    # ... and those positions survive into the searchable index: the `packs` vector of every constructed TypeIndex is the
+    # collected one, element for element (projection allowed; no element dropped, merged or moved - pack_idx would point elsewhere)
+    KEEP = re.compile(r"IntoIterator(>)?::into_iter$|Iterator>::(map|collect|cloned|copied|by_ref)$|Iterator::(map|collect|cloned|copied|by_ref)$|FromIterator<.*>>::from_iter$|"
+                      r"Vec::<T(, A)?>::(new|with_capacity|into_iter)$|Clone>::clone$|Default>::default$|mem::take$|Deref(Mut)?>::deref(_mut)?$|Vec::<T, A>::(iter|len)$|slice::<impl \[T\]>::(iter|to_vec)$")
+    n_pk = 0
+    for (b, bi, s_) in cons:
+        if "packs" not in s_[2][1][3]:
+            continue
+        op = s_[2][2][s_[2][1][3].index("packs")]
+        pl = op_place(op)
+        if pl is None:
+            continue
+        sl = flow.backward_slice(b, pl)
+        calls_ = sorted(set(sl["calls"]))
+        if not calls_:
+            continue   # an empty / default vector
+        n_pk += 1
+        moved = [c for c in calls_ if not KEEP.search(c) and re.search(r"Iterator|Itertools|::(sort|dedup|retain|reverse|swap|remove|insert|truncate|drain|split_off|rotate)", c)]
+        rep.check("C17.b", f"packs-keep-positions/{fn_key(b)}", not moved, where=where(b, bi),
+                  what=f"{fn_key(b)}: the packs vector of the built TypeIndex is the collected one, element for element" if not moved else
+                       f"{fn_key(b)}: the packs vector is filtered / de-duplicated / reordered ({[c.rsplit('::', 2)[-2] + '::' + c.rsplit('::', 1)[-1] for c in moved]}) after the entries recorded their pack_idx: entries of later packs point at another pack")
+    rep.floor("C17.b", "TypeIndex constructions with a collected packs vector", n_pk, 1)
     # total_size(type) answers from the bucket of the requested type only
     TS = prog.bodies.get(f"<{BS}Index as rustic_core::index::ReadIndex>::total_size")
     if TS is not None:
